@@ -7,6 +7,57 @@ VERIF = os.path.dirname(os.path.abspath(__file__))
 
 # id -> (level category, level text, level note, technique, design ref)
 CLAIMED = {
+    "C01": ("model_checking",
+            "TLC enumerates the complete labelled transition graph of spec/Vault.tla for a family of 38 callers (all-access, empty, every "
+            "single action x pattern rule, split rules, a multi-rule set) x every operation and argument x existing/absent/reserved/empty names "
+            "in every reachable bounded state, and checks AclGate / EffectImpliesGrant / ListExact on it; every edge is then executed on the real "
+            "db.DB and through the real HTTP handlers (WhoIs carrying the rules), comparing reply class, payload, audit record and the full state "
+            "before/after. Random histories with arbitrary generated rule sets are validated line by line by TLC, which recomputes Allow with the "
+            "specification's own matcher (Glob.tla), not acl.go.",
+            "Bounded model constants; quick tier samples the 4-name graph (the 3-name graph is complete). WhoIs is the injected seam.",
+            "TLC exhaustive graph of Vault.tla replayed on real code (db + http) + TLC trace validation of random histories",
+            "DESIGN.md §4 C01"),
+    "C02": ("model_checking",
+            "The Vault specification IS the sequential map model of the statement. TLC enumerates every transition (every operation with every "
+            "argument incl. version 0, absent versions, empty values, delete-then-recreate, re-put after deleting the newest version; reopen) of "
+            "the bounded instance and checks the step lemmas (fresh never-reused numbers, immutability, non-interference, failed calls change "
+            "nothing); the harness executes every edge on the real db.DB from a real state equal to the edge's pre-state and compares reply and "
+            "the full projected state, including the hidden next-version counters (probed on a copy of the file), after every call.",
+            "Exhaustive for the stated constants (2 names x 2-3 values x 3 versions; 1 name x 4-5 versions); beyond that random histories (C01/C06 checks).",
+            "TLC exhaustive graph of Vault.tla, complete edge coverage replayed on real db.DB with state comparison after every step",
+            "DESIGN.md §4 C02"),
+    "C03": ("model_checking",
+            "Same graph as C02 walked with a real restart (db.Open on the same file and key) after every single call: the projection including "
+            "next-version counters must equal the model state (Durable: disk = sec) and the open must leave the file bytes untouched; six golden "
+            "schema-v1 files written by the pinned commit are opened by the current build and the observed state is appended to the recorded "
+            "history that produced them, which TLC validates against Vault (Reopen action).",
+            "Golden files were produced by the pinned commit with a committed cleartext test keyset; quick tier samples 40% of the edges.",
+            "TLC graph replay with restart after every operation + golden-file histories validated by TLC",
+            "DESIGN.md §4 C03"),
+    "C06": ("model_checking",
+            "Vault.tla models the audit step of every method (who, action, secret, version, authorized; none for an unchanged conditional get; "
+            "fail closed; the encoder's sticky error). TLC enumerates the graph with an audit sink failing at the write or the sync of any record "
+            "and a failing save; every edge is replayed with a sink the harness owns, which checks per call the records written, that each is "
+            "one complete synced JSON line and that the database file was still untouched when it was written. Random histories with faults are "
+            "validated by TLC; concurrent callers append to a real audit.NewFile file and TLC explains the file's record order (VaultConcTrace).",
+            "The audit sink is an injected io.Writer with Sync; the concurrent part uses a real file read back afterwards.",
+            "TLC exhaustive fault graph replayed on real code + TLC trace validation (sequential and concurrent)",
+            "DESIGN.md §4 C06"),
+    "C09": ("model_checking",
+            "Every conditional-get edge of the bounded Vault graph (V = current, older, newer, deleted, never-existing, 0; after activation "
+            "forwards and backwards) is executed through db.DB, through the HTTP handler + setec.Client.GetIfChanged (304/404/403 mapping) and "
+            "against a FileClient built from the state's active versions; CondGet is checked by TLC on the specification.",
+            "FileClient omits empty-valued secrets by design.",
+            "TLC exhaustive graph of Vault.tla, conditional-get edges replayed through three client paths",
+            "DESIGN.md §4 C09"),
+    "C14": ("model_checking",
+            "VaultConc.tla splits every method at the code's lock boundaries (audit outside the mutex, data step inside; conditional get and "
+            "list in one critical section). TLC checks all interleavings of a small instance, and -- the deciding part -- validates recorded "
+            "concurrent histories of the real server (db API and HTTP handlers, race detector on): begin/end/audit events in one total order, "
+            "the Apply steps left to TLC, which therefore performs the linearizability search per history, including audit order and final state.",
+            "Histories are small (2-4 clients x 2-5 calls) and numerous; a race report counts only with a setec frame on the stack.",
+            "TLC linearizability search over recorded concurrent histories (trace validation with silent steps) + race detector",
+            "DESIGN.md §4 C14"),
     "C07": ("exploration",
             "TLC computes the complete expected match table from the TLA+ definition Glob!Match (itself cross-checked in TLC against the "
             "independent 'literal pieces in order, anchored' definition MatchP, plus the rule-set lemmas in ACLMC) for every (pattern, name) "
